@@ -21,6 +21,9 @@ import time
 import traceback
 
 VERIF = os.path.dirname(os.path.dirname(os.path.abspath(__file__)))
+# runs against a scratch copy of the repository (seeded changes) keep their output away from the committed evidence
+_SCRATCH_RUN = os.path.abspath(os.environ.get("VERIF_REPO", "/repo")) != "/repo"
+OUT = os.environ.get("VERIF_OUT") or (os.path.join(VERIF, ".scratch") if _SCRATCH_RUN else VERIF)
 NPROC = int(os.environ.get("VERIF_JOBS", "0") or 0) or min(16, os.cpu_count() or 1)
 
 
@@ -170,9 +173,14 @@ def run_legs(modname, legs, tier, nproc=None, serial_legs=()):
     total = Part()
     jobs = []
     for leg in legs:
-        n = 1 if leg in serial_legs else nproc
-        for s in range(n):
-            jobs.append((modname, leg, tier, s, n))
+        if leg in serial_legs:
+            # legs that fan out over all cores themselves (schedule exploration) run in this process
+            total.merge(_run_shard((modname, leg, tier, 0, 1)))
+            continue
+        for s in range(nproc):
+            jobs.append((modname, leg, tier, s, nproc))
+    if not jobs:
+        return total
     if nproc == 1 or len(jobs) == 1:
         for j in jobs:
             total.merge(_run_shard(j))
@@ -206,7 +214,7 @@ def load_known():
 
 
 def write_replay(prop, signature, case, detail, count):
-    d = os.path.join(VERIF, "replays")
+    d = os.path.join(OUT, "replays")
     os.makedirs(d, exist_ok=True)
     name = "%s-%s.json" % (prop, hashlib.blake2b(signature.encode(), digest_size=5).hexdigest())
     path = os.path.join(d, name)
@@ -317,8 +325,8 @@ def finish(prop, tier, seed, total, meta, t0, legs):
     except AssertionError as ex:
         print("HARNESS-ERROR property=%s evidence invalid: %s" % (prop, ex), flush=True)
         code = 2
-    os.makedirs(os.path.join(VERIF, "evidence"), exist_ok=True)
-    with open(os.path.join(VERIF, "evidence", prop + ".json"), "w") as f:
+    os.makedirs(os.path.join(OUT, "evidence"), exist_ok=True)
+    with open(os.path.join(OUT, "evidence", prop + ".json"), "w") as f:
         json.dump(doc, f, indent=1, sort_keys=True, default=repr)
         f.write("\n")
 
